@@ -19,3 +19,8 @@ Proof. exact unbounded_frame_dropped. Qed.
 (* non-vacuity: valid frames of the three kinds *)
 Example C20_premise_satisfiable : valid (Between (Prec 2) Cur) = true /\ valid (Single UnbPrec) = true /\ valid (Between (Foll 1) (Foll 3)) = true.
 Proof. vm_compute. auto. Qed.
+
+(* listed finding C05:frame-start-after-end at model level: outside `valid` (start after end) _to_between_call picks the wrong side and a bound is lost *)
+Theorem C20_start_after_end_refuted :
+  valid (Between (Foll 51) (Prec 72)) = false /\ mframe (Between (Foll 51) (Prec 72)) = (Some 0, Some (-72)) /\ spec (Between (Foll 51) (Prec 72)) = (Some 51, Some (-72)).
+Proof. vm_compute. repeat split; reflexivity. Qed.
